@@ -123,6 +123,10 @@ func c13Run(c *core.Case, o *core.Outcome) {
 			fileStage = pick(r, "ramp", "staged", "constant", "staged")
 			freq := pick(r, "100ms", "250ms", "1s", "2s")
 			a, bb := 1+r.IntN(400), 1+r.IntN(4000)
+			if bb == a {
+				// a ramp between equal rates is refused by design ("try using the constant mode")
+				bb++
+			}
 			stage := func(jit float64) api.RateFunction {
 				body := fmt.Sprintf("  mode: ramp\n  start-rate: %d/1s\n  end-rate: %d/1s\n", a, bb)
 				if fileStage == "constant" {
